@@ -38,21 +38,19 @@ begin
   resetable_bitvector <= buffer_resetable_bitvector;
   
 
-  proc: process(clk)
+  proc: process(clk, reset)
     variable temp : boolean;
-    variable temp1 : boolean;
-    variable temp2 : unsigned(2 downto 0);
+    variable temp1 : unsigned(2 downto 0);
   begin
-    if rising_edge(clk) then
-      temp := reset = '1';
-      temp1 := not (temp);
-      if temp1 then
-        cnt <= unsigned'("011");
-        buffer_resetable_bit <= '0';
-        buffer_resetable_bitvector <= "000";
-      else
-        temp2 := (cnt) + (1);
-        cnt <= temp2;
+    temp := reset = '1';
+    if temp then
+      cnt <= unsigned'("011");
+      buffer_resetable_bit <= '0';
+      buffer_resetable_bitvector <= "000";
+    else
+      if rising_edge(clk) then
+        temp1 := (cnt) + (1);
+        cnt <= temp1;
         buffer_out_bit <= cnt(1);
         buffer_resetable_bit <= cnt(1);
         buffer_out_bitvector <= std_logic_vector(cnt);
